@@ -20,6 +20,8 @@ linear ordered field (ℚ, ℝ).  `op.Length`, `op.Distance`, `op.PointEquals` a
 `NearestNeighbor` are the parameters `Geo` (their contracts are hypotheses of the theorems).
 Core Lean only.
 -/
+set_option linter.unusedVariables false
+set_option linter.unusedSectionVars false
 namespace GeomV.C19
 
 inductive Fault
@@ -64,11 +66,28 @@ def upd {β : Type} (f : Nat → Option β) (k : Nat) (v : β) : Nat → Option 
 /-- removes one entry from the queue; `none` on the empty queue (`heap.Pop`) -/
 abbrev Pick (α : Type) := List (Entry α) → Option (Entry α × List (Entry α))
 
+/-- the priority queue `open` as `AStar` uses it (the queue content is a list of entries; for gonum's
+`aStarQueue` it is the slice `nodes` in heap layout, see `heapQ`) -/
+structure Queue (α : Type) where
+  /-- `heap.Push(open, e)` -/
+  push : List (Entry α) → Entry α → List (Entry α)
+  /-- `open.update(id, g, f)` -/
+  update : List (Entry α) → Nat → α → α → List (Entry α)
+  /-- `heap.Pop(open)` -/
+  pop : Pick α
+
+/-- the abstract queue: push appends, update rewrites in place, pop is any function `pick`
+(contract `PickSpec`: some entry of minimal fscore) -/
+def listQ {α : Type} (pick : Pick α) : Queue α :=
+  { push := fun l e => l ++ [e]
+    update := fun l v g f => l.map fun e => if e.node == v then ⟨v, g, f⟩ else e
+    pop := pick }
+
 section astar
 variable {α : Type} [Zero α] [Add α] [LT α] [DecidableLT α]
 
 /-- body of `for to.Next() { … }` for one neighbour `v` of the expanded entry `u` -/
-def relaxStep (A : Adapter α) (t : Nat) (u : Entry α) (st : AState α) (v : Nat) : Except Fault (AState α) :=
+def relaxStep (A : Adapter α) (Q : Queue α) (t : Nat) (u : Entry α) (st : AState α) (v : Nat) : Except Fault (AState α) :=
   if v ∈ st.closed then .ok st                                   -- visited.Has(vid): continue
   else match A.weight u.node v with
     | none => .error .badWeight
@@ -79,38 +98,38 @@ def relaxStep (A : Adapter α) (t : Nat) (u : Entry α) (st : AState α) (v : Na
         match st.openQ.find? (fun e => e.node == v) with
         | none =>                                                -- path.set; heap.Push
           .ok { st with dist := upd st.dist v g, prev := upd st.prev v u.node,
-                        openQ := st.openQ ++ [⟨v, g, g + A.h v t⟩] }
+                        openQ := Q.push st.openQ ⟨v, g, g + A.h v t⟩ }
         | some n =>
           if g < n.g then                                        -- path.set; open.update
             .ok { st with dist := upd st.dist v g, prev := upd st.prev v u.node,
-                          openQ := st.openQ.map fun e => if e.node == v then ⟨v, g, g + A.h v t⟩ else e }
+                          openQ := Q.update st.openQ v g (g + A.h v t) }
           else .ok st
 
-def relaxAll (A : Adapter α) (t : Nat) (u : Entry α) : AState α → List Nat → Except Fault (AState α)
+def relaxAll (A : Adapter α) (Q : Queue α) (t : Nat) (u : Entry α) : AState α → List Nat → Except Fault (AState α)
   | st, [] => .ok st
-  | st, v :: vs => match relaxStep A t u st v with
+  | st, v :: vs => match relaxStep A Q t u st v with
     | .error e => .error e
-    | .ok st' => relaxAll A t u st' vs
+    | .ok st' => relaxAll A Q t u st' vs
 
 /-- `for open.Len() != 0 { u := heap.Pop(open); if uid == tid { break }; visited.Add(uid); … }` -/
-def astarLoop (A : Adapter α) (pick : Pick α) (t : Nat) : Nat → AState α → Except Fault (AState α)
+def astarLoop (A : Adapter α) (Q : Queue α) (t : Nat) : Nat → AState α → Except Fault (AState α)
   | 0, _ => .error .fuel
   | fuel + 1, st =>
-    match pick st.openQ with
+    match Q.pop st.openQ with
     | none => .ok st
     | some (u, rest) =>
       if u.node = t then .ok { st with openQ := rest }
       else
-        match relaxAll A t u { st with openQ := rest, closed := u.node :: st.closed } (A.frm u.node) with
+        match relaxAll A Q t u { st with openQ := rest, closed := u.node :: st.closed } (A.frm u.node) with
         | .error e => .error e
-        | .ok st' => astarLoop A pick t fuel st'
+        | .ok st' => astarLoop A Q t fuel st'
 
 /-- `newShortestFrom(s, {s, t})` and `heap.Push(open, {s, 0, h(s, t)})` -/
-def astarInit (A : Adapter α) (s t : Nat) : AState α :=
-  { openQ := [⟨s, 0, A.h s t⟩], closed := [], dist := upd (fun _ => none) s 0, prev := fun _ => none }
+def astarInit (A : Adapter α) (Q : Queue α) (s t : Nat) : AState α :=
+  { openQ := Q.push [] ⟨s, 0, A.h s t⟩, closed := [], dist := upd (fun _ => none) s 0, prev := fun _ => none }
 
-def astar (A : Adapter α) (pick : Pick α) (fuel : Nat) (s t : Nat) : Except Fault (AState α) :=
-  astarLoop A pick t fuel (astarInit A s t)
+def astar (A : Adapter α) (Q : Queue α) (fuel : Nat) (s t : Nat) : Except Fault (AState α) :=
+  astarLoop A Q t fuel (astarInit A Q s t)
 
 /-- the inner loop of `Shortest.To` (no negative cycle): follow `next` from `v` back to `from`;
 `fuel` is `len(p.nodes)` -/
@@ -137,6 +156,80 @@ def minEntry (e : Entry α) (es : List (Entry α)) : Entry α :=
 def pickMin : Pick α
   | [] => none
   | e :: es => let m := minEntry e es; some (m, (e :: es).filter fun x => x.node != m.node)
+
+/-! ### gonum's `aStarQueue` under Go's `container/heap`
+
+The queue content is the slice `q.nodes` in heap layout.  `Less(i, j)` is
+`nodes[i].fscore < nodes[j].fscore`; `Swap` exchanges two slots (and keeps `indexOf[id]` = slot of
+the entry of node `id`, which is why `open.node(id)` / `open.update(id, …)` are modelled as a search
+for the entry of that node).  Every slot access below carries its bounds proof: the Go code cannot
+index out of range either. -/
+
+/-- `heap.up(h, j)`: `for { i := (j-1)/2 /* parent */; if i == j || !h.Less(j, i) { break }; h.Swap(i, j); j = i }`
+(in Go `(0-1)/2 = 0`, so `i == j` exactly when `j = 0`) -/
+def heapUp (a : Array (Entry α)) (j : Nat) : Array (Entry α) :=
+  if h : 0 < j ∧ j < a.size then
+    if a[j].f < (a[(j - 1) / 2]'(by omega)).f then
+      heapUp (a.swap ((j - 1) / 2) j (by omega) h.2) ((j - 1) / 2)
+    else a
+  else a
+termination_by j
+decreasing_by omega
+
+/-- `j := j1; if j2 := j1 + 1; j2 < n && h.Less(j2, j1) { j = j2 }` with `j1 = 2*i + 1 < n` -/
+def heapChild (a : Array (Entry α)) (i n : Nat) (hn : n ≤ a.size) (h1 : 2 * i + 1 < n) : Nat :=
+  if h2 : 2 * i + 2 < n then
+    (if (a[2 * i + 2]'(by omega)).f < (a[2 * i + 1]'(by omega)).f then 2 * i + 2 else 2 * i + 1)
+  else 2 * i + 1
+
+theorem heapChild_lt (a : Array (Entry α)) (i n : Nat) (hn : n ≤ a.size) (h1 : 2 * i + 1 < n) :
+    heapChild a i n hn h1 < n ∧ i < heapChild a i n hn h1 := by
+  unfold heapChild; split
+  · split <;> omega
+  · omega
+
+/-- `heap.down(h, i0, n)`: `for { j1 := 2*i + 1; if j1 >= n || j1 < 0 { break }; …; if !h.Less(j, i) { break };
+h.Swap(i, j); i = j }; return i > i0` — returned here: the slice and the final `i` (`j1 < 0` is integer
+overflow, impossible for slices that fit in memory) -/
+def heapDown (a : Array (Entry α)) (i n : Nat) (hn : n ≤ a.size) : Array (Entry α) × Nat :=
+  if h1 : 2 * i + 1 < n then
+    have hj := heapChild_lt a i n hn h1
+    if (a[heapChild a i n hn h1]'(by omega)).f < (a[i]'(by omega)).f then
+      heapDown (a.swap i (heapChild a i n hn h1) (by omega) (by omega)) (heapChild a i n hn h1) n (by simpa using hn)
+    else (a, i)
+  else (a, i)
+termination_by n - i
+decreasing_by omega
+
+/-- `heap.Push(h, x)`: `h.Push(x); up(h, h.Len()-1)` -/
+def heapPush (a : Array (Entry α)) (e : Entry α) : Array (Entry α) := heapUp (a.push e) a.size
+
+/-- `heap.Pop(h)`: `n := h.Len() - 1; h.Swap(0, n); down(h, 0, n); return h.Pop()` (the last slot) -/
+def heapPop (a : Array (Entry α)) : Option (Entry α × Array (Entry α)) :=
+  if h : 0 < a.size then
+    let a2 := (heapDown (a.swap 0 (a.size - 1) h (by omega)) 0 (a.size - 1) (by simp)).1
+    match a2.back? with
+    | some m => some (m, a2.pop)
+    | none => none
+  else none
+
+/-- `heap.Fix(h, i)`: `if !down(h, i, h.Len()) { up(h, i) }` -/
+def heapFix (a : Array (Entry α)) (i : Nat) : Array (Entry α) :=
+  let r := heapDown a i a.size (Nat.le_refl _)
+  if i < r.2 then r.1 else heapUp r.1 i
+
+/-- `aStarQueue.update(id, g, f)`: `i, ok := q.indexOf[id]; if !ok { return }; q.nodes[i].gscore = g;
+q.nodes[i].fscore = f; heap.Fix(q, i)` -/
+def heapUpdate (a : Array (Entry α)) (v : Nat) (g f : α) : Array (Entry α) :=
+  match a.findFinIdx? (fun e => e.node == v) with
+  | none => a
+  | some i => heapFix (a.set i { a[i] with g := g, f := f }) i
+
+/-- gonum's queue: the list is `q.nodes` -/
+def heapQ : Queue α :=
+  { push := fun l e => (heapPush l.toArray e).toList
+    update := fun l v g f => (heapUpdate l.toArray v g f).toList
+    pop := fun l => (heapPop l.toArray).map fun r => (r.1, r.2.toList) }
 
 end astar
 
@@ -304,7 +397,7 @@ def collect (net : Net α) : List Nat → Except Fault (List Nat × α × α)
 /-- `ShortestRoute`.  The two fuel values are modelling devices (ids are `1 … n`, so `n + 2` expansions
 and `n + 3` path steps can never be exhausted: theorem `C19_route`).  (Go accumulates `distance += e.length` left to right; `collect` sums right to
 left — the same number in exact arithmetic, which is what the model computes in.) -/
-def shortestRoute (geo : Geo α) (pick : Pick α) (implementsWeighted : Bool) (ord : Nat → List Nat → List Nat)
+def shortestRoute (geo : Geo α) (pick : Queue α) (implementsWeighted : Bool) (ord : Nat → List Nat → List Nat)
     (net : Net α) (from_ to : Pt α) : Except Fault (Route α) :=
   match geo.nearest net.nodes from_, geo.nearest net.nodes to with
   | some s, some t =>
@@ -331,7 +424,7 @@ inductive Op (α : Type) where
 function of the network built so far, so an answer CANNOT depend on earlier queries
 (`C19_history`).  Any such dependence in the real code (a cache that `AddLink` does not
 invalidate, say) shows up as a SPEC/DIFF verdict on a query asked again after further links. -/
-def runOps (geo : Geo α) (pick : Pick α) (implementsWeighted : Bool) (ord : Nat → List Nat → List Nat) :
+def runOps (geo : Geo α) (pick : Queue α) (implementsWeighted : Bool) (ord : Nat → List Nat → List Nat) :
     Net α → Nat → List (Op α) → Except Fault (List (Except Fault (Route α)))
   | _, _, [] => .ok []
   | net, i, .link l :: r =>
